@@ -88,13 +88,13 @@ macro_rules! uint_shr {
 uint_shl!(c05_uint1_shl, 1, false);
 //@ name=c05_uint1_shr prop=C05,C11,C15 tier=quick profile=k64 funcs="Uint::overflowing_shr,Uint::overflowing_shr_vartime,Uint::wrapping_shr" bound="Uint<1>, all values, every u32 shift, symbolic bit index" free_bits=104
 uint_shr!(c05_uint1_shr, 1, false);
-//@ name=c05_uint2_shl prop=C05,C11,C15 tier=quick profile=k64 funcs="Uint::overflowing_shl,Uint::overflowing_shl_vartime,Uint::wrapping_shl,Uint::wrapping_shl_vartime,WrappingShl,ShlVartime" bound="Uint<2>, all values, every u32 shift, symbolic bit index" free_bits=168
+//@ name=c05_uint2_shl prop=C05,C11,C15 tier=quick profile=k64 funcs="Uint::overflowing_shl,Uint::overflowing_shl_vartime,Uint::wrapping_shl,Uint::wrapping_shl_vartime,WrappingShl,ShlVartime" bound="Uint<2>, all values, every u32 shift, symbolic bit index" free_bits=168 core=C15
 uint_shl!(c05_uint2_shl, 2, true);
-//@ name=c05_uint2_shr prop=C05,C11,C15 tier=quick profile=k64 funcs="Uint::overflowing_shr,Uint::overflowing_shr_vartime,Uint::wrapping_shr,Uint::wrapping_shr_vartime,WrappingShr,ShrVartime" bound="Uint<2>, all values, every u32 shift, symbolic bit index" free_bits=168
+//@ name=c05_uint2_shr prop=C05,C11,C15 tier=quick profile=k64 funcs="Uint::overflowing_shr,Uint::overflowing_shr_vartime,Uint::wrapping_shr,Uint::wrapping_shr_vartime,WrappingShr,ShrVartime" bound="Uint<2>, all values, every u32 shift, symbolic bit index" free_bits=168 core=C15
 uint_shr!(c05_uint2_shr, 2, true);
-//@ name=c05_uint3_shl prop=C05,C11,C15 tier=quick profile=k64 funcs="Uint::overflowing_shl,Uint::overflowing_shl_vartime,Uint::wrapping_shl" bound="Uint<3> (width not a power of two), all values, every u32 shift, symbolic bit index" free_bits=232
+//@ name=c05_uint3_shl prop=C05,C11,C15 tier=quick profile=k64 funcs="Uint::overflowing_shl,Uint::overflowing_shl_vartime,Uint::wrapping_shl" bound="Uint<3> (width not a power of two), all values, every u32 shift, symbolic bit index" free_bits=232 core=C11
 uint_shl!(c05_uint3_shl, 3, false);
-//@ name=c05_uint3_shr prop=C05,C11,C15 tier=quick profile=k64 funcs="Uint::overflowing_shr,Uint::overflowing_shr_vartime,Uint::wrapping_shr" bound="Uint<3> (width not a power of two), all values, every u32 shift, symbolic bit index" free_bits=232
+//@ name=c05_uint3_shr prop=C05,C11,C15 tier=quick profile=k64 funcs="Uint::overflowing_shr,Uint::overflowing_shr_vartime,Uint::wrapping_shr" bound="Uint<3> (width not a power of two), all values, every u32 shift, symbolic bit index" free_bits=232 core=C11
 uint_shr!(c05_uint3_shr, 3, false);
 //@ name=c05_uint4_shl prop=C05,C11,C15 tier=quick profile=k64 funcs="Uint::overflowing_shl,Uint::overflowing_shl_vartime,Uint::wrapping_shl" bound="Uint<4>, all values, every u32 shift, symbolic bit index" free_bits=296
 uint_shl!(c05_uint4_shl, 4, false);
@@ -223,7 +223,7 @@ wide_shifts!(c05_uint2_wide_shifts, 2);
 //@ name=c05_uint3_wide_shifts prop=C05,C11 tier=thorough profile=k64 funcs="Uint::overflowing_shl_vartime_wide,Uint::overflowing_shr_vartime_wide" bound="Uint<3> pairs, all values, every shift != 0" free_bits=425 assumes="shift != 0 (shift == 0 isolated in c05_wide_shift_zero)"
 wide_shifts!(c05_uint3_wide_shifts, 3);
 
-//@ prop=C05,C11 tier=quick profile=k64 funcs="Uint::overflowing_shl_vartime_wide,Uint::overflowing_shr_vartime_wide" bound="Uint<2> pairs, all values, shift == 0: must return the input unchanged without panicking" free_bits=256 expect=finding:wide_shift_zero
+//@ prop=C05,C11 tier=quick profile=k64 funcs="Uint::overflowing_shl_vartime_wide,Uint::overflowing_shr_vartime_wide" bound="Uint<2> pairs, all values, shift == 0: must return the input unchanged without panicking" free_bits=256 expect=finding:wide_shift_zero core=C11
 #[kani::proof]
 #[kani::unwind(8)]
 fn c05_wide_shift_zero() {
@@ -335,7 +335,7 @@ macro_rules! uint_bits {
 uint_bits!(c05_uint1_bits, 1);
 //@ name=c05_uint2_bits prop=C05,C11,C15 tier=quick profile=k64 funcs="Uint::bits,Uint::bits_vartime,Uint::leading_zeros,Uint::trailing_zeros,Uint::trailing_ones,Uint::bit,Uint::bit_vartime,Uint::set_bit,BitOps" bound="Uint<2>, all values, every u32 bit index" free_bits=169
 uint_bits!(c05_uint2_bits, 2);
-//@ name=c05_uint3_bits prop=C05,C11,C15 tier=quick profile=k64 funcs="Uint::bits,Uint::bits_vartime,Uint::leading_zeros,Uint::trailing_zeros,Uint::trailing_ones,Uint::bit,Uint::bit_vartime,Uint::set_bit,BitOps" bound="Uint<3>, all values, every u32 bit index" free_bits=234
+//@ name=c05_uint3_bits prop=C05,C11,C15 tier=quick profile=k64 funcs="Uint::bits,Uint::bits_vartime,Uint::leading_zeros,Uint::trailing_zeros,Uint::trailing_ones,Uint::bit,Uint::bit_vartime,Uint::set_bit,BitOps" bound="Uint<3>, all values, every u32 bit index" free_bits=234 core=C15
 uint_bits!(c05_uint3_bits, 3);
 //@ name=c05_uint5_bits prop=C05,C11,C15 tier=quick profile=k64 funcs="Uint::bits,Uint::bits_vartime,Uint::leading_zeros,Uint::trailing_zeros,Uint::trailing_ones,Uint::bit,Uint::bit_vartime,Uint::set_bit,BitOps" bound="Uint<5>, all values, every u32 bit index" free_bits=363
 uint_bits!(c05_uint5_bits, 5);
